@@ -266,9 +266,12 @@ def simulate(h, stimulus, observe):
     stimulus: list (one per cycle) of {port index in h.ports: value}.  observe: list of Signals.
     Returns per-cycle dict id(signal) -> int (sampled after the inputs of the cycle have settled).
     """
-    from amaranth import Module, Signal
+    from amaranth import Module, Signal, ClockDomain
     from amaranth.sim import Simulator
     m = Module()
+    uses_rst = any("rst" in step for step in stimulus)
+    if uses_rst:
+        m.domains.sync = cd = ClockDomain()
     m.submodules.dut = h.top
     keep = Signal()
     m.d.sync += keep.eq(~keep)
@@ -278,7 +281,11 @@ def simulate(h, stimulus, observe):
 
     async def tb(ctx):
         for step in stimulus:
+            if uses_rst:
+                ctx.set(cd.rst, int(step.get("rst", 0)))
             for idx, val in step.items():
+                if idx == "rst":
+                    continue
                 s = h.ports[int(idx)]
                 if len(s):
                     ctx.set(s, val)
@@ -306,6 +313,8 @@ def model_stimulus(ts, frames, model):
                 continue
             v = model.eval(f.inputs[pname], model_completion=True)
             step[str(idx)] = v.as_long()
+        if "rst" in f.inputs and model.eval(f.inputs["rst"], model_completion=True).as_long():
+            step["rst"] = 1
         stim.append(step)
     return stim
 
@@ -357,7 +366,16 @@ LONG_PREFIXES = [20, 40, 80, 160, 320, 640]
 ROOT_BUDGET_S = 240
 
 
-def decide(make, h, name, k, build, stats, init="free", max_prefix=6, twin=None, sample=None):
+def rst_of(frame):
+    """the reset input of a symbolic frame as a Bool, or None (simulator frames: the recorded stimulus already
+    carries it; netlists without a reset input)"""
+    inp = getattr(frame, "inputs", None)
+    if inp is None or "rst" not in inp:
+        return None
+    return inp["rst"] == 1
+
+
+def decide(make, h, name, k, build, stats, init="free", max_prefix=6, twin=None, sample=None, rst_free=False):
     """Decide one window property.
 
     make()        -> fresh Harness (for replay);  h: Harness already translated.
@@ -368,7 +386,7 @@ def decide(make, h, name, k, build, stats, init="free", max_prefix=6, twin=None,
     Returns None or a Violation.
     """
     ts = h.translate()
-    frames, cons = unroll(ts, k, init=init, tag="w")
+    frames, cons = unroll(ts, k, init=init, tag="w", rst_free=rst_free)
     assumes, bad = build(h, frames)
     twin_failed = None
     r, model = solve(cons + list(assumes) + [bad], stats, name)
@@ -406,7 +424,7 @@ def decide(make, h, name, k, build, stats, init="free", max_prefix=6, twin=None,
         if init == "reset":
             rframes, rcons, rmodel = frames, cons, model
         else:
-            rframes, rcons = unroll(ts, p + k, init="reset", tag="r")
+            rframes, rcons = unroll(ts, p + k, init="reset", tag="r", rst_free=rst_free)
             ra, rbad = build(h, rframes[p:])
             rr, rmodel = solve(rcons + list(ra) + [rbad], stats, f"{name}/root{p}", timeout_ms=45_000, soft=True)
             if rr == "unknown":
